@@ -312,7 +312,7 @@ func short(err error) string {
 var parseLayoutCheck = hx.NewCheck("parse_layout_invariant", oracleParseLayout)
 
 func TestParseLayoutInvariant(t *testing.T) {
-	hx.Rule("parse_layout_invariant", "G-SQL statement tokens rendered once with single spaces and once with drawn separators (none where legal, newlines, tabs, line/block comments) and re-drawn keyword case; both must get the same verdict and the same tree (strings case-folded); non-trivial = the second layout has a comment or an abutting pair; distinct = separator classes + token count")
+	hx.Rule("parse_layout_invariant", "G-SQL statement tokens rendered once with single spaces and once with drawn separators (none where legal, newlines, tabs, line/block comments) re-drawn keyword case and some double-quoted identifiers re-spelled with backticks; both must get the same verdict and the same tree (strings case-folded); non-trivial = the second layout has a comment or an abutting pair; distinct = separator classes + token count")
 	parseLayoutCheck.Rapid(t, hx.N(60000, 600000), func(rt *rapid.T) ParseLayoutCase {
 		sf := sqlgen.FullFeatures()
 		g := sqlgen.New(rt, sf)
@@ -320,6 +320,15 @@ func TestParseLayoutInvariant(t *testing.T) {
 		lx := sqlgen.Lexemes(st.Toks)
 		f := features()
 		lb := lexgen.Recase(rt, lx)
+		requoted := false
+		for i := range lb {
+			// "name" and `name` are two spellings of the same quoted identifier (the tokenizer documents
+			// backticks for MySQL compatibility): whatever the name spells, it is a name
+			if lb[i].Kind == lexgen.KQIdent && !strings.ContainsAny(lb[i].Value, "`\"\n") && rapid.IntRange(0, 3).Draw(rt, "backtick") == 0 {
+				lb[i].Kind, lb[i].Text = lexgen.KBIdent, "`"+lb[i].Value+"`"
+				requoted = true
+			}
+		}
 		tx := lexgen.Render(lb, lexgen.GenSeps(rt, f, lb, "p"))
 		abut := false
 		for i, s := range tx.SepClass {
@@ -333,6 +342,9 @@ func TestParseLayoutInvariant(t *testing.T) {
 		}
 		if len(tx.Comments) > 0 {
 			cl = append(cl, "comment")
+		}
+		if requoted {
+			cl = append(cl, "backtick_requoted")
 		}
 		hx.Case("parse_layout_invariant", abut || len(tx.Comments) > 0, strings.Join(tx.SepClass, ",")+st.Kind, cl...)
 		hx.Sample("parse_layout_invariant", tx.Src)
